@@ -809,6 +809,7 @@ func TestC16(t *testing.T) {
 	r.pools = newC16Pools()
 	r.partB()
 	r.partC()
+	r.partD()
 
 	r.st.DistinctNontrivial = len(r.distinct)
 	r.st.Rule = "distinct (part, contract, deployed version or storage shape signature, signer set / data shape, outcome incl. fault reason) tuples"
@@ -2531,6 +2532,151 @@ func (r *c16Run) designationSweep(variant string) {
 		if variant == "next-block" && p.c.Name == "processing" && (p.set == "A4of7" || p.set == "B4of7") {
 			r.st.Samples = append(r.st.Samples, dc)
 		}
+	}
+	r.st.Histories++
+}
+
+// ---------------------------------------------------------------------------
+// Part D: CheckVersion on a grid of version numbers.  The check lives in the
+// NEW code's _deploy, so no patched build is needed: the injector stub (empty
+// storage) is updated to the tree's contract with data = [v].  The grid is
+// built from the COMPONENTS (major, minor, patch) of both bounds: for each
+// component the values c-1, c, c+1 (clipped at 0), 0 and 999.  Quick tier:
+// every single-component deviation from each bound plus a pairwise covering of
+// two-component deviations; thorough tier: the full products.  Plus negative,
+// huge and boundary numbers.  One chain is reused as long as the updates
+// fault (the stub stays in place).
+
+func c16VersionGrid(prev, ver int64, full bool) []int64 {
+	seen := map[int64]bool{}
+	var out []int64
+	add := func(v int64) {
+		if !seen[v] {
+			seen[v] = true
+			out = append(out, v)
+		}
+	}
+	for _, b := range []int64{prev, ver} {
+		comp := [3]int64{b / 1_000_000, b / 1_000 % 1_000, b % 1_000}
+		var alts [3][]int64
+		for i, c := range comp {
+			for _, a := range []int64{c - 1, c + 1, 0, 999} {
+				if a >= 0 && a != c {
+					dup := false
+					for _, x := range alts[i] {
+						dup = dup || x == a
+					}
+					if !dup {
+						alts[i] = append(alts[i], a)
+					}
+				}
+			}
+		}
+		num := func(c [3]int64) int64 { return c[0]*1_000_000 + c[1]*1_000 + c[2] }
+		add(num(comp))
+		if full {
+			for _, x := range append([]int64{comp[0]}, alts[0]...) {
+				for _, y := range append([]int64{comp[1]}, alts[1]...) {
+					for _, z := range append([]int64{comp[2]}, alts[2]...) {
+						add(num([3]int64{x, y, z}))
+					}
+				}
+			}
+			continue
+		}
+		for i := 0; i < 3; i++ { // single-component deviations
+			for _, a := range alts[i] {
+				c := comp
+				c[i] = a
+				add(num(c))
+			}
+		}
+		for i := 0; i < 3; i++ { // pairwise covering of two-component deviations
+			for j := i + 1; j < 3; j++ {
+				for k := range alts[i] {
+					c := comp
+					c[i] = alts[i][k]
+					c[j] = alts[j][(k+1)%len(alts[j])]
+					add(num(c))
+					c[j] = alts[j][(k+2)%len(alts[j])]
+					add(num(c))
+				}
+			}
+		}
+	}
+	for _, v := range []int64{-1, -prev, -ver, -1_000_000_000, 1, 1_000_000_000, 1_000_000_000 + prev, 1_000_000_000 + ver - 1,
+		1<<31 - 1, 1 << 31, 1 << 32, 1<<32 + prev, 1<<62 + prev, prev + 1_000_000, ver - 1 + 1_000_000} {
+		add(v)
+	}
+	return out
+}
+
+func (r *c16Run) partD() {
+	t := r.t
+	prev, ver := int64(common.PrevVersion), int64(common.Version)
+	grid := c16VersionGrid(prev, ver, Tier() == "thorough")
+	r.st.Extra["version_grid"] = len(grid)
+	targets := []c16Contract{}
+	for _, c := range c16Contracts {
+		switch c.Name {
+		case "alphabet", "netmap", "nns": // need arguments / legacy keys / are covered by part B
+		default:
+			targets = append(targets, c)
+		}
+	}
+	var v *Env
+	var h util.Uint160
+	var target c16Contract
+	var nb, mb []byte
+	fresh := func(i int) {
+		target = targets[i%len(targets)]
+		v = NewEnv(t)
+		nw := c16Compile(t, v.E.Validator.ScriptHash(), RepoDir, target.Name)
+		stub := r.stubFor(v, nw, target.Name)
+		v.E.DeployContract(t, stub, nil)
+		h = stub.Hash
+		nb, mb = c16NefManifest(t, nw)
+	}
+	for i, ver0 := range grid {
+		i, ver0 := i, ver0
+		r.guard(fmt.Sprintf("CheckVersion grid: update from version %d", ver0), func() {
+			r.roll(false)
+			if v == nil {
+				fresh(i)
+			}
+			data := c16Arr(c16Int(ver0))
+			res := v.Invoke(nil, h, "update", nb, mb, data.arg())
+			after := c16Dump(v.StorageDump(h))
+			inRange := prev <= ver0 && ver0 < ver
+			rep := map[string]any{"contract": target.Name, "storage": "empty", "data": []int64{ver0}, "version": ver0,
+				"halt": res.Halt, "fault": shortFault(res.Fault), "prev_version": prev, "new_version": ver}
+			if res.Halt && !inRange {
+				r.st.AddViolation(fmt.Sprintf("C16_gate: update of %s from unsupported version %d halted (supported: %d <= v < %d)", target.Name, ver0, prev, ver), rep)
+			}
+			if !res.Halt && inRange {
+				r.st.AddViolation(fmt.Sprintf("C16_gate: update of %s from supported version %d faulted: %s", target.Name, ver0, res.Fault), rep)
+			}
+			if len(after) != 0 {
+				r.st.AddViolation("C16 version grid: the empty storage is not empty after the update", rep)
+			}
+			verAfter := int64(-1)
+			if res.Halt {
+				verAfter = v.ReadInt(h, "version").Int64()
+			}
+			r.w.cases = append(r.w.cases, fmt.Sprintf("mkCase (OStub %s (env_basic %d%%Z [] [] []) true (%s)) [] %s [] %s",
+				target.Coq, res.Height-1, data.coq(r.w.pool), BoolLit(res.Halt), ZI(verAfter)))
+			r.st.Evaluations++
+			r.st.OpHistogram["version-grid"]++
+			oc := "halt"
+			if !res.Halt {
+				oc = "fault:" + shortFault(res.Fault)
+			}
+			r.st.OutcomeHistogram["version-grid/"+oc]++
+			r.distinct[fmt.Sprintf("grid|%d|%s", ver0, oc)] = true
+			if res.Halt {
+				v = nil // the stub has become the real contract
+			}
+		})
 	}
 	r.st.Histories++
 }
